@@ -7,13 +7,25 @@
 #include <stdlib.h>
 #include <string.h>
 #include <stdint.h>
+#include <sys/types.h>
 #include "libwifi.h"
 
 static int ITER = 1500;
 static uint64_t fnv(uint64_t h, const void *p, size_t n) { const unsigned char *b = p; for (size_t i = 0; i < n; i++) { h ^= b[i]; h *= 1099511628211ULL; } return h; }
 
+/* the kernel's random bytes are replaced (link-time wrap) by a per-thread deterministic stream, so that the random
+ * address generator's output can be part of the digest: a library that drew them from a process-wide generator instead
+ * (rand, random ...) would give interleaving-dependent results */
+static __thread unsigned rnd_ctr;
+ssize_t __wrap_getrandom(void *buf, size_t n, unsigned flags) {
+    (void) flags;
+    for (size_t i = 0; i < n; i++) ((unsigned char *) buf)[i] = (unsigned char) (rnd_ctr++ * 167u + 13u);
+    return (ssize_t) n;
+}
+
 static uint64_t work(int id) {
     uint64_t h = 1469598103934665603ULL;
+    rnd_ctr = (unsigned) id * 100000u;
     for (int j = 0; j < ITER; j++) {
         unsigned char a1[6] = {(unsigned char) id, (unsigned char) j, 3, 4, 5, 6}, a2[6] = {9, 8, (unsigned char) id, 6, 5, (unsigned char) (j >> 3)};
         char ssid[24]; snprintf(ssid, sizeof ssid, "net-%d-%d", id, j % 17);
@@ -93,7 +105,8 @@ static uint64_t work(int id) {
             size_t l4 = libwifi_get_action_length(&ac); unsigned char *b4 = malloc(l4);
             libwifi_dump_action(&ac, b4, l4); h = fnv(h, b4, l4); free(b4); libwifi_free_action(&ac);
         }
-        unsigned char rm[6]; libwifi_random_mac(rm, (unsigned char *) "\x0a\x0b\x0c"); h = fnv(h, rm, 3);
+        unsigned char rm[6]; libwifi_random_mac(rm, (unsigned char *) "\x0a\x0b\x0c"); h = fnv(h, rm, 6);
+        libwifi_random_mac(rm, NULL); h = fnv(h, rm, 6);
     }
     return h;
 }
